@@ -182,6 +182,25 @@ type Node struct {
 	KI   int64  `json:"ki"`
 }
 
+// PairA and PairB refer to each other: object graphs with a cycle of length two (and, through the containers, longer
+// ones) are built from them.
+type PairA struct {
+	V  int64   `json:"v"`
+	B  *PairB  `json:"b"`
+	LB []PairB `json:"lb"`
+	K  string  `json:"k"`
+	KI int64   `json:"ki"`
+}
+
+type PairB struct {
+	S  string           `json:"s"`
+	A  *PairA           `json:"a"`
+	N  *Node            `json:"n"`
+	MA map[string]PairA `json:"ma"`
+	K  string           `json:"k"`
+	KI int64            `json:"ki"`
+}
+
 type AltA struct {
 	A  int64  `json:"a"`
 	PA *int64 `json:"pa"`
@@ -207,12 +226,14 @@ var catalogue = map[string]structEntry{
 	"Mid":  {reflect.TypeOf(Mid{}), schema.NewStructMappedObjectSchema[Mid], schema.NewStructMappedObjectSchema[*Mid]},
 	"Top":  {reflect.TypeOf(Top{}), schema.NewStructMappedObjectSchema[Top], schema.NewStructMappedObjectSchema[*Top]},
 	"Node": {reflect.TypeOf(Node{}), schema.NewStructMappedObjectSchema[Node], schema.NewStructMappedObjectSchema[*Node]},
+	"PairA": {reflect.TypeOf(PairA{}), schema.NewStructMappedObjectSchema[PairA], schema.NewStructMappedObjectSchema[*PairA]},
+	"PairB": {reflect.TypeOf(PairB{}), schema.NewStructMappedObjectSchema[PairB], schema.NewStructMappedObjectSchema[*PairB]},
 	"AltA": {reflect.TypeOf(AltA{}), schema.NewStructMappedObjectSchema[AltA], schema.NewStructMappedObjectSchema[*AltA]},
 	"AltB": {reflect.TypeOf(AltB{}), schema.NewStructMappedObjectSchema[AltB], schema.NewStructMappedObjectSchema[*AltB]},
 }
 
 // StructNames lists the catalogue in fixed order.
-var StructNames = []string{"Leaf", "Mid", "Top", "Node", "AltA", "AltB"}
+var StructNames = []string{"Leaf", "Mid", "Top", "Node", "AltA", "AltB", "PairA", "PairB"}
 
 // Field is one field of a catalogue struct as seen by the schema layer.
 type Field struct {
